@@ -149,16 +149,12 @@ def compute(roots, sizefn=None):
     T["unique_tag_count"] = len(tags)
 
     def maxw(key, objs, fn):
-        best = 0
-        w = set()
-        for oid, o in objs.items():
-            v = fn(o)
-            if v > best:
-                best, w = v, {oid}
-            elif v == best:
-                w.add(oid)
+        # witness set: every object that attains the REPORTED (saturated) value of the metric
+        vals = {oid: fn(o) for oid, o in objs.items()}
+        best = max(vals.values(), default=0)
+        cap = CAPS[key]
         T[key] = best
-        ex.wit[key] = w if objs else set()
+        ex.wit[key] = {oid for oid, v in vals.items() if min(v, cap) == min(best, cap)}
 
     maxw("max_commit_size", commits, size)
     maxw("max_parent_count", commits, lambda o: len(o.parents))
